@@ -13,16 +13,13 @@
    token of its own.
 
    scanString advances over non-special bytes one grapheme cluster at a time
-   (textseg.ScanGraphemeClusters).  Only the byte range matters here, and a
-   cluster differs from its first byte in a way visible to the scanner only
-   when it swallows a quote, a backslash or another ASCII byte.  That happens
-   exactly for textseg's PrependSeq = Prepend+ (any non-control char ...)?: a
-   GCB=Prepend code point glues the following character to itself.  The model
-   therefore goes byte by byte, except after a Prepend code point (table
-   [prepend_at], transcribed from go-textseg v15 grapheme_clusters_table.rl,
-   Unicode 15.0), where a following byte in 0x20..0x7E is consumed blindly.
-   All other members of a cluster are non-ASCII and are consumed by the default
-   case anyway.  This is calibrated against the real scanner on every run. *)
+   (textseg.ScanGraphemeClusters, for the column count) and cuts the cluster
+   before the first quote, backslash or control byte inside it.  Only the byte
+   range matters here: every byte of a cluster after its first one is therefore
+   a byte the default case would consume anyway (resetting `escaping`), so the
+   model goes byte by byte.  (Before the cut was added a GCB=Prepend character
+   glued the closing quote to itself; finding fixed in /repo 97334cf.)  The
+   token stream is compared with the real scanner on every run. *)
 From HclV Require Import Base.Prelude.
 
 Inductive jtype :=
@@ -92,75 +89,23 @@ Definition scan_keyword (bs : list Z) : list Z * list Z := span keyword_byte bs.
 
 Definition rng (lo hi b : Z) : bool := (lo <=? b) && (b <=? hi).
 
-(* Length in bytes of a GCB=Prepend code point encoded at the head of bs; 0 if
-   there is none.  go-textseg v15, grapheme_clusters_table.rl, "Prepend =". *)
-Definition prepend_at (bs : list Z) : nat :=
-  match bs with
-  | b1 :: b2 :: r2 =>
-      if (b1 =? 216) && rng 128 133 b2 then 2%nat          (* U+0600..0605 *)
-      else if (b1 =? 219) && (b2 =? 157) then 2%nat        (* U+06DD *)
-      else if (b1 =? 220) && (b2 =? 143) then 2%nat        (* U+070F *)
-      else match r2 with
-      | b3 :: r3 =>
-          if (b1 =? 224) && (b2 =? 162) && rng 144 145 b3 then 3%nat   (* U+0890..0891 *)
-          else if (b1 =? 224) && (b2 =? 163) && (b3 =? 162) then 3%nat (* U+08E2 *)
-          else if (b1 =? 224) && (b2 =? 181) && (b3 =? 142) then 3%nat (* U+0D4E *)
-          else match r3 with
-          | b4 :: _ =>
-              if (b1 =? 240) && (b2 =? 145) &&
-                 (((b3 =? 130) && (b4 =? 189))             (* U+110BD *)
-                  || ((b3 =? 131) && (b4 =? 141))          (* U+110CD *)
-                  || ((b3 =? 135) && rng 130 131 b4)       (* U+111C2..111C3 *)
-                  || ((b3 =? 164) && (b4 =? 191))          (* U+1193F *)
-                  || ((b3 =? 165) && (b4 =? 129))          (* U+11941 *)
-                  || ((b3 =? 168) && (b4 =? 186))          (* U+11A3A *)
-                  || ((b3 =? 170) && rng 132 137 b4)       (* U+11A84..11A89 *)
-                  || ((b3 =? 181) && (b4 =? 134))          (* U+11D46 *)
-                  || ((b3 =? 188) && (b4 =? 130)))         (* U+11F02 *)
-              then 4%nat else 0%nat
-          | [] => 0%nat
-          end
-      | [] => 0%nat
-      end
-  | _ => 0%nat
-  end.
-
-(* some suffix of bs begins with a Prepend code point *)
-Fixpoint has_prepend (bs : list Z) : bool :=
-  match bs with
-  | [] => false
-  | _ :: r => negb (Nat.eqb (prepend_at bs) 0) || has_prepend r
-  end.
-
 (* The loop of scanString after the opening quote.  esc = the Go variable
-   escaping; skip = bytes of the current Prepend code point still to consume;
-   after = a Prepend code point has just been consumed (the cluster is open).
-   Returns (bytes taken, rest). *)
-Fixpoint scan_string_loop (bs : list Z) (esc : bool) (skip : nat) (after : bool)
-  : list Z * list Z :=
+   escaping.  Returns (bytes taken, rest). *)
+Fixpoint scan_string_loop (bs : list Z) (esc : bool) : list Z * list Z :=
   match bs with
   | [] => ([], [])
   | b :: r =>
-      let take esc' skip' after' :=
-        let (t, r') := scan_string_loop r esc' skip' after' in (b :: t, r') in
-      match skip with
-      | S k => take false k after
-      | O =>
-          let k := prepend_at bs in
-          if after && negb (Nat.eqb k 0) then take false (Nat.pred k) true
-          else if after && rng 32 126 b then take false 0%nat false
-          else if b =? 92 then take (negb esc) 0%nat false
-          else if b =? 34 then (if esc then take false 0%nat false else ([b], r))
-          else if b <? 32 then ([], bs)
-          else if negb (Nat.eqb k 0) then take false (Nat.pred k) true
-          else take false 0%nat false
-      end
+      let take esc' := let (t, r') := scan_string_loop r esc' in (b :: t, r') in
+      if b =? 92 then take (negb esc)
+      else if b =? 34 then (if esc then take false else ([b], r))
+      else if b <? 32 then ([], bs)
+      else take false
   end.
 
 (* scanString: buf begins with the opening quote *)
 Definition scan_string (bs : list Z) : list Z * list Z :=
   match bs with
-  | q :: r => let (t, r') := scan_string_loop r false 0%nat false in (q :: t, r')
+  | q :: r => let (t, r') := scan_string_loop r false in (q :: t, r')
   | [] => ([], [])
   end.
 
